@@ -112,16 +112,25 @@ def run_case(rng):
     if len({k['base_folder'] for _, k, _ in specs}) > 1:
         for _, k, _ in specs:
             k['base_folder'] = specs[0][1]['base_folder']
-    return eval_case(cfgd, utrench, specs)
+    writer_set = None
+    if rng.random() < 0.3:
+        # the writer's refractive indices are public attributes: built for one objective, switched to another before exporting
+        writer_set = {rng.choice(['n_environment', 'n_glass']): rng.choice([1.0, 1.33, 1.5, 1.7])}
+    return eval_case(cfgd, utrench, specs, writer_set)
 
 
-def eval_case(cfgd, utrench, specs):
+def eval_case(cfgd, utrench, specs, writer_set=None):
     from femto.writer import TrenchWriter, UTrenchWriter
     for p in pathlib.Path('.').iterdir():
         shutil.rmtree(p) if p.is_dir() else p.unlink()
     cols = build_columns(utrench, specs)
     descrs = [{'calls': calls, 'column': kw, 'wg_param': wp, 'blocks': len(col._trench_list)} for (calls, kw, wp), col in zip(specs, cols)]
     W = (UTrenchWriter if utrench else TrenchWriter)(list(cols), filename='dev.pgm', **cfgd)
+    cfg_built = cfgd
+    if writer_set:
+        for k, v in writer_set.items():
+            setattr(W, k, v)
+        cfgd = dict(cfgd, **writer_set)          # the settings in force when the tree is exported
     raised = None
     try:
         with pgm.quiet():
@@ -129,7 +138,7 @@ def eval_case(cfgd, utrench, specs):
     except Exception as e:
         raised = f'{type(e).__name__}: {e}'
     root = pathlib.Path(cfgd['export_dir'] or '.') / ('U-TRENCH' if utrench else 'TRENCH')
-    descr = {'cfg': cfgd, 'utrench': utrench, 'columns': descrs, 'raised': raised}
+    descr = {'cfg': cfgd, 'utrench': utrench, 'columns': descrs, 'raised': raised, 'writer_set': writer_set, 'cfg_built': cfg_built}
     if raised is not None:
         return None, descr
     if not any(c._trench_list for c in cols):
@@ -272,7 +281,7 @@ def replay(data):
         return 1
     common.fresh_cwd('C06')
     specs = [(col['calls'], col['column'], col['wg_param']) for col in c['columns']]
-    lit, d = eval_case(c['cfg'], c['utrench'], specs)
+    lit, d = eval_case(c.get('cfg_built') or c['cfg'], c['utrench'], specs, c.get('writer_set'))
     if lit is None:
         print('replay: export raised', d['raised'])
         return 1
